@@ -218,7 +218,7 @@ class _Pre:
             if isinstance(p, ast.Attribute) and p.value is n:
                 g = parents.get(id(p))
                 if isinstance(g, ast.Call) and g.func is p and p.attr in (
-                        'append', 'popleft', 'pop', 'clear', 'extend', 'join', 'index', 'count'):
+                        'append', 'popleft', 'pop', 'clear', 'extend', 'join', 'index', 'count', 'sort'):
                     continue
                 return True
             if isinstance(p, ast.Subscript) and p.value is n:
@@ -312,14 +312,6 @@ class _Pre:
                         raise Unsupported(n, 'use of deque %s on which a deque and a list may differ' % v)
         if not dq:
             return
-        pre = self
-
-        class T(ast.NodeTransformer):
-            def visit_Call(self, n):
-                self.generic_visit(n)
-                if pre._is_deque_ctor(n):
-                    return ast.copy_location(ast.List(elts=[], ctx=ast.Load()), n)
-                return n
         # the constructor check must see the unmodified function: collect first
         ctor_ids = {id(n) for n in ast.walk(self.f) if self._is_deque_ctor(n)}
 
@@ -340,7 +332,7 @@ class _Pre:
         names = set()
         for n in ast.walk(self.f):
             mc = _method_call(n)
-            if mc and isinstance(mc[0], ast.Name) and mc[1] in ('append', 'extend', 'clear', 'popleft'):
+            if mc and isinstance(mc[0], ast.Name) and mc[1] in ('append', 'extend', 'clear', 'popleft', 'sort'):
                 names.add(mc[0].id)
             if isinstance(n, ast.AugAssign) and isinstance(n.target, ast.Name) and isinstance(n.op, ast.Add):
                 b = self._bindings(n.target.id)
@@ -404,8 +396,17 @@ class _Pre:
                             right=ast.copy_location(ast.List(elts=[args[0]], ctx=ast.Load()), st)), st), st)]
                     if m == 'extend' and len(args) == 1:
                         pre.note('extend')
+                        arg = _op('as_list', [args[0]], st)
+                        if isinstance(args[0], ast.Call) and isinstance(args[0].func, ast.Name) \
+                                and args[0].func.id == 'range' and not args[0].keywords and 1 <= len(args[0].args) <= 2 \
+                                and pre._builtin('range') and not any(isinstance(x, ast.Starred) for x in args[0].args):
+                            arg = _op('range', args[0].args, st)       # `extend` exhausts the range object
                         return pre_stmts + [_assign(v, ast.copy_location(ast.BinOp(
-                            left=_name(v, st), op=ast.Add(), right=_op('as_list', [args[0]], st)), st), st)]
+                            left=_name(v, st), op=ast.Add(), right=arg), st), st)]
+                    if m == 'sort' and not args and pre._builtin('sorted'):
+                        pre.note('sort')
+                        return pre_stmts + [_assign(v, ast.copy_location(ast.Call(
+                            func=_name('sorted', st), args=[_name(v, st)], keywords=[]), st), st)]
                     if m == 'clear' and not args:
                         pre.note('clear')
                         return pre_stmts + [_assign(v, ast.copy_location(ast.List(elts=[], ctx=ast.Load()), st), st)]
@@ -505,6 +506,17 @@ class _Pre:
                 self.generic_visit(n)
                 if isinstance(n.op, ast.Add):
                     return _op('add', [n.left, n.right], n)       # type-directed: str + str, else the base `+`
+                return n
+
+            def visit_ListComp(self, n):
+                # [int(v) for v in E] = list(map(int, E)): the first failing item raises, nothing else is observable
+                g = n.generators
+                if len(g) == 1 and not g[0].ifs and not g[0].is_async and isinstance(g[0].target, ast.Name) \
+                        and _is_call_of(n.elt, 'int', 1) and isinstance(n.elt.args[0], ast.Name) \
+                        and n.elt.args[0].id == g[0].target.id and pre._builtin('int'):
+                    pre.note('map-int')
+                    return _op('map_int', [self.visit(g[0].iter)], n)
+                self.generic_visit(n)
                 return n
 
             def visit_Compare(self, n):
